@@ -308,6 +308,31 @@ VTotal(e) == IF e.p = "C07" THEN VTotalC07(e)
              ELSE LET a == VTotalC07(e) IN IF a # OK THEN a ELSE VTotalC13(e)
 
 -------------------------------------------------------------------------------------
+(* C09  ev = "c09i": YUV -> XYB -> YUV on an in-gamut image that did NOT come out of the library's own encoder.
+   The harness quantises unit-cube RGB itself; the DOMAIN is re-established here: every input code must be within
+   half a code (+1e-6*2^n) of ColourScience!EncodeIdeal of the logged RGB, RGB in [0,1]^3, block-constant for
+   subsampled configs.  Then the budget relation of C09 on the round trip.                        *)
+AbsI(x) == IF x < 0 THEN -x ELSE x
+VC09i(e) ==
+  LET c == e.cfg  full == (c.full = 1)  np == Len(e.rgb)  mx == FromInt(MaxCode(c.n))
+      cw == Shr(e.w, c.ssx)
+      InDomain(i) == /\ AllNum3(e.rgb[i]) /\ InUnitCube(e.rgb[i])
+                     /\ LET id == EncodeIdeal(c.mc, full, c.n, e.rgb[i]) IN
+                        \A p \in 1..3 : Near(FromInt(e.codes[i][p]), Clamp(id[p], Z, mx), Tol02(c.n))
+      BlockConst == \A x \in 0..(e.w - 1), y \in 0..(e.h - 1) :
+                      e.codes[y * e.w + x + 1] = e.codes[(Shr(y, c.ssy) * Pow2(c.ssy)) * e.w + Shr(x, c.ssx) * Pow2(c.ssx) + 1]
+  IN IF ~(c.mc \in Std7 /\ c.tc \in Tc14 /\ c.cp \in Cp11 \ {10}) THEN <<"C09.domain">>
+     ELSE IF \E i \in 1..np : ~InDomain(i) THEN <<"C09.domain-input-not-an-in-gamut-encoding">>
+     ELSE IF ~BlockConst THEN <<"C09.domain-not-block-constant">>
+     ELSE IF e.res # "ok" THEN <<"C09.result", e.res>>
+     ELSE IF e.wo # e.w \/ e.ho # e.h THEN <<"C09.dims">>
+     ELSE IF e.cfgo # e.cfgi \/ e.cfgi # c THEN <<"C09.config">>
+     ELSE IF \E p \in 1..3 : Len(e.out[p]) # Len(e.in[p]) THEN <<"C09.shape">>
+     ELSE LET bad == {q \in {<<p, i>> : p \in 1..3, i \in 1..Len(e.in[1])} :
+                        q[2] <= Len(e.in[q[1]]) /\ AbsI(e.out[q[1]][q[2]] - e.in[q[1]][q[2]]) > Budget09(c.n)} IN
+          IF bad = {} THEN OK ELSE LET q == CHOOSE x \in bad : TRUE IN <<"C09.budget", q, e.in[q[1]][q[2]], e.out[q[1]][q[2]], Budget09(c.n)>>
+
+-------------------------------------------------------------------------------------
 Verdict(e) ==
   CASE e.ev = "dec"    -> VDec(e)
     [] e.ev = "enc"    -> VEnc(e)
@@ -325,6 +350,7 @@ Verdict(e) ==
     [] e.ev = "mathtot" -> VMathTot(e)
     [] e.ev = "total"  -> VTotal(e)
     [] e.ev = "pair"   -> VPair(e)
+    [] e.ev = "c09i"   -> VC09i(e)
     [] e.ev = "xyb"    -> VXyb(e)
     [] e.ev = "xybrt"  -> VXybRt(e)
     [] e.ev = "prim"   -> VPrim(e)
